@@ -312,7 +312,7 @@ func writeReplay(prop, harness string, v *Violation) string {
 	path := filepath.Join(dir, fmt.Sprintf("%s-%s.json", harness, sanitize(v.Label)))
 	out := map[string]interface{}{
 		"property": prop, "harness": harness, "kind": v.Kind, "label": v.Label, "pos": v.Pos,
-		"model": v.Model, "nondets": v.Nondets, "chooses": v.Chooses, "decisions": v.Decisions, "trace": v.Trace,
+		"model": v.Model, "nondets": v.Nondets, "chooses": v.Chooses, "harness_chooses": v.HarnessChooses, "decisions": v.Decisions, "trace": v.Trace,
 		"replay_kind": "interp",
 	}
 	b, _ := json.MarshalIndent(out, "", " ")
